@@ -415,62 +415,85 @@ impl<'a, S: Scheme> Sess<'a, S> {
     pub fn prove(&mut self, op: &Op, tag: u64) -> Outcome<Claim<S>> {
         self.stats.steps += 1;
         let (qs, evals) = self.statement(op);
-        let scn = self.scn;
-        let points = &self.points;
         let pr = &mut self.prover;
-        let order = pr.order.clone();
-        let out = match op {
-            Op::Open { polys, point } => {
-                let ps: Vec<_> = polys.iter().map(|&i| &pr.polys[i]).collect();
-                let cs: Vec<_> = polys.iter().map(|&i| &pr.comms[i]).collect();
-                let ss: Vec<_> = polys.iter().map(|&i| &pr.states[i]).collect();
+        let out = Self::prove_on(self.scn, &self.points, &pr.ck, &pr.polys, &pr.comms, &pr.states, &pr.order, op, qs, evals, &mut pr.sponge, Some(&mut pr.rng));
+        pr.rng.mark("open");
+        self.log.ev(&format!("prove op{} -> {} sponge={}", tag, out.kind(), pr.sponge.state_digest()));
+        out
+    }
+
+    /// The library prover on explicit inputs (so that a byzantine prover can run it on lists that
+    /// do not belong together). Values of `Open` claims come from the reference model.
+    pub fn prove_on(
+        scn: &Scenario,
+        points: &[S::Pt],
+        ck: &Ck<S>,
+        polys: &[LabeledPolynomial<S::F, S::P>],
+        comms: &[LabeledCommitment<Comm<S>>],
+        states: &[State<S>],
+        order: &[usize],
+        op: &Op,
+        qs: QuerySet<S::Pt>,
+        evals: Evaluations<S::Pt, S::F>,
+        sponge: &mut TraceSponge<S::F>,
+        rng: Option<&mut SimRng>,
+    ) -> Outcome<Claim<S>> {
+        let rng: Option<&mut dyn ark_std::rand::RngCore> = match rng {
+            Some(r) => Some(r),
+            None => None,
+        };
+        match op {
+            Op::Open { polys: idx, point } => {
+                let ps: Vec<_> = idx.iter().map(|&i| &polys[i]).collect();
+                let cs: Vec<_> = idx.iter().map(|&i| &comms[i]).collect();
+                let ss: Vec<_> = idx.iter().map(|&i| &states[i]).collect();
                 let z = &points[*point];
-                let values: Vec<S::F> = polys.iter().map(|&i| pr.polys[i].polynomial().eval_ref(z)).collect();
-                let labels = polys.iter().map(|&i| scn.polys[i].label.clone()).collect();
-                let (ck, sponge, rng) = (&pr.ck, &mut pr.sponge, &mut pr.rng);
-                match step(|| PcOf::<S>::open(ck, ps, cs, z, sponge, ss, Some(rng))) {
+                let values: Vec<S::F> = idx.iter().map(|&i| polys[i].polynomial().eval_ref(z)).collect();
+                let labels = idx.iter().map(|&i| scn.polys[i].label.clone()).collect();
+                match step(|| PcOf::<S>::open(ck, ps, cs, z, sponge, ss, rng)) {
                     Outcome::Ok(proof) => Outcome::Ok(Claim::Open { labels, point: z.clone(), values, proof }),
                     Outcome::Err(e) => Outcome::Err(e),
                     Outcome::Abort(e) => Outcome::Abort(e),
                 }
             }
             Op::Batch { .. } => {
-                let ps: Vec<_> = order.iter().map(|&i| &pr.polys[i]).collect();
-                let cs: Vec<_> = order.iter().map(|&i| &pr.comms[i]).collect();
-                let ss: Vec<_> = order.iter().map(|&i| &pr.states[i]).collect();
-                let (ck, sponge, rng) = (&pr.ck, &mut pr.sponge, &mut pr.rng);
-                match step(|| PcOf::<S>::batch_open(ck, ps, cs, &qs, sponge, ss, Some(rng))) {
+                let ps: Vec<_> = order.iter().map(|&i| &polys[i]).collect();
+                let cs: Vec<_> = order.iter().map(|&i| &comms[i]).collect();
+                let ss: Vec<_> = order.iter().map(|&i| &states[i]).collect();
+                match step(|| PcOf::<S>::batch_open(ck, ps, cs, &qs, sponge, ss, rng)) {
                     Outcome::Ok(proof) => Outcome::Ok(Claim::Batch { qs, evals, proof }),
                     Outcome::Err(e) => Outcome::Err(e),
                     Outcome::Abort(e) => Outcome::Abort(e),
                 }
             }
             Op::Lc { lcs, .. } => {
-                let built: Vec<LinearCombination<S::F>> = lcs.iter().map(|l| {
-                    let mut out = LinearCombination::empty(l.label.clone());
-                    for (c, t) in &l.terms {
-                        let c: S::F = coeff_of(c, scn.seed);
-                        out.push((c, match t { None => LCTerm::One, Some(i) => LCTerm::PolyLabel(scn.polys[*i].label.clone()) }));
-                    }
-                    out
-                }).collect();
+                let built: Vec<LinearCombination<S::F>> = lcs
+                    .iter()
+                    .map(|l| {
+                        let mut out = LinearCombination::empty(l.label.clone());
+                        for (c, t) in &l.terms {
+                            let c: S::F = coeff_of(c, scn.seed);
+                            out.push((c, match t {
+                                None => LCTerm::One,
+                                Some(i) => LCTerm::PolyLabel(scn.polys[*i].label.clone()),
+                            }));
+                        }
+                        out
+                    })
+                    .collect();
                 // the prover lists its LCs in its own order too
                 let lc_order = seeded_perm(built.len(), scn.env.prover_perm.rotate_left(7));
                 let listed: Vec<&LinearCombination<S::F>> = lc_order.iter().map(|&i| &built[i]).collect();
-                let ps: Vec<_> = order.iter().map(|&i| &pr.polys[i]).collect();
-                let cs: Vec<_> = order.iter().map(|&i| &pr.comms[i]).collect();
-                let ss: Vec<_> = order.iter().map(|&i| &pr.states[i]).collect();
-                let (ck, sponge, rng) = (&pr.ck, &mut pr.sponge, &mut pr.rng);
-                match step(|| PcOf::<S>::open_combinations(ck, listed, ps, cs, &qs, sponge, ss, Some(rng))) {
+                let ps: Vec<_> = order.iter().map(|&i| &polys[i]).collect();
+                let cs: Vec<_> = order.iter().map(|&i| &comms[i]).collect();
+                let ss: Vec<_> = order.iter().map(|&i| &states[i]).collect();
+                match step(|| PcOf::<S>::open_combinations(ck, listed, ps, cs, &qs, sponge, ss, rng)) {
                     Outcome::Ok(proof) => Outcome::Ok(Claim::Lc { lcs: built, qs, evals, proof }),
                     Outcome::Err(e) => Outcome::Err(e),
                     Outcome::Abort(e) => Outcome::Abort(e),
                 }
             }
-        };
-        pr.rng.mark("open");
-        self.log.ev(&format!("prove op{} -> {} sponge={}", tag, out.kind(), pr.sponge.state_digest()));
-        out
+        }
     }
 
     /// Verifier step on an explicit sponge / rng (so that replicas and re-deliveries are possible).
